@@ -12,12 +12,13 @@ import (
 // verifFakePayloader is the Payloader contract as a nondeterministic stub:
 // any number of fragments (bounded), any contents, each at most mtu bytes.
 type verifFakePayloader struct {
-	last [][]byte
-	full bool // emit fragments of exactly mtu bytes (mtu is concrete then)
+	minFrags int // 0: the stub may also return no fragment at all (e.g. a payloader that only stashes the input)
+	last     [][]byte
+	full     bool // emit fragments of exactly mtu bytes (mtu is concrete then)
 }
 
 func (f *verifFakePayloader) Payload(mtu uint16, payload []byte) [][]byte {
-	n := verifCase("nfrag", 1, verifBound("C06.maxfrags"))
+	n := verifCase("nfrag", f.minFrags, verifBound("C06.maxfrags"))
 	var out [][]byte
 	for i := 0; i < n; i++ {
 		l := verifPick("fraglen", []int{1, 3})
@@ -44,14 +45,14 @@ func (r *verifRecPayloader) Payload(mtu uint16, payload []byte) [][]byte {
 }
 
 type verifState struct {
-	rec    *verifRecPayloader
-	p      *packetizer
-	seq    *sequencer
-	absID  int
-	nowNs  int64
-	mtu    uint16
-	fake   *verifFakePayloader
-	g711   bool
+	rec   *verifRecPayloader
+	p     *packetizer
+	seq   *sequencer
+	absID int
+	nowNs int64
+	mtu   uint16
+	fake  *verifFakePayloader
+	g711  bool
 }
 
 func verifC06Setup() *verifState {
@@ -72,13 +73,13 @@ func verifC06Setup() *verifState {
 	verifAssume(p.PayloadType <= 127)
 	switch verifCase("payloader", 0, 2) {
 	case 0:
-		s.fake = &verifFakePayloader{}
+		s.fake = &verifFakePayloader{minFrags: 1 - verifCase("may-return-nothing", 0, 1)}
 		p.Payloader = s.fake
 		p.MTU = verifU16("mtu")
 		verifAssume(p.MTU >= 64)
 	case 1:
 		// full-size fragments: concrete MTU so that the fragment length is mtu-12 exactly
-		s.fake = &verifFakePayloader{full: true}
+		s.fake = &verifFakePayloader{full: true, minFrags: 1}
 		p.Payloader = s.fake
 		p.MTU = uint16(verifPick("mtu-concrete", []int{64, 77}))
 	default:
@@ -110,7 +111,6 @@ func verifC06Packetize(s *verifState, tag string) {
 	samples := verifU32("samples")
 	seq0, roc0, ts0 := s.seq.sequenceNumber, s.seq.rollOverCount, p.Timestamp
 	pkts := p.Packetize(payload, samples)
-	verifAssert(tag+".some-packets", len(pkts) >= 1)
 	verifAssert(tag+".timestamp-advance", p.Timestamp == ts0+samples)
 	var frags [][]byte
 	if s.g711 {
@@ -177,6 +177,12 @@ func VerifC06Train() {
 		ts := s.p.Timestamp
 		s.p.SkipSamples(skip)
 		verifAssert("C06.skip", s.p.Timestamp == ts+skip)
+		if s.absID != 0 && verifCase("disable-abs-send-time", 0, 1) == 1 {
+			// switching the extension off again must take effect
+			s.p.EnableAbsSendTime(0)
+			s.absID = 0
+			verifCover("C06.abs-disabled-again")
+		}
 		verifC06Packetize(s, "C06.second")
 		verifCover("C06.second-call")
 	}
@@ -206,4 +212,3 @@ func VerifC06Train() {
 	verifAssert("C06.empty", len(s.p.Packetize(nil, 5)) == 0 && s.seq.sequenceNumber == seq1)
 	verifCover("C06.end")
 }
-
